@@ -2,4 +2,11 @@ package main
 
 import "qedverif/cq"
 
-func dispatch14(cmd string, out *cq.Out, seed uint64, tier, arg string) bool { return false }
+func dispatch14(cmd string, out *cq.Out, seed uint64, tier, arg string) bool {
+	switch cmd {
+	case "backuplive":
+		backupLiveCmd(out, seed, tier)
+		return true
+	}
+	return dispatch15(cmd, out, seed, tier, arg)
+}
